@@ -151,8 +151,21 @@ static bool protocol_invalid(void)
 }
 
 /* C14: both texts against the reference rendering */
+/* prior use of print in the same process, on ANOTHER parser object: a print that aborts inside an array after one element
+ * (an undefined type byte). Whatever it leaves behind must not leak into the print under test. */
+static void poison_print(void)
+{
+    static const uint8_t bad[] = { 0x40, 0x14, 0x01, 'a', 0x42, 0x10, 0x01, 0x47, 0x43, 0x41 };
+    binson_state st[2];
+    binson_parser q;
+    memset(&q, 0, sizeof q);
+    q.state = st; q.max_depth = 2;
+    if (binson_parser_init_object(&q, bad, sizeof bad)) (void) binson_parser_print(&q);
+    fflush(stdout);
+}
 static char *capture_print(size_t *len, bool *ret)
 {
+    poison_print();
     fflush(stdout);
     if (ftruncate(outfd, 0) || lseek(outfd, 0, SEEK_SET) < 0) vf_die("memfd reset");
     vf_progress++;
